@@ -285,3 +285,8 @@ def run(ctx):
         "R7.removal-authority": "a second remover destroys an object while other handles exist",
         "R14.free-list-head": "a corrupted free list places a new object over a live one (or outside the slab) in the thread-safe pools too",
     })
+    ctx.import_rules("C01", {
+        "R10.checked-entry-points-check": "the checked insertion of the thread-safe pools is what makes a wrong-layout insert a panic instead of two live objects sharing memory",
+        "R11.twin-agreement": "same: the checked entry point must differ from its unchecked twin by the verification only",
+        "R4.handle-provenance": "a handle whose slab/slot coordinates are not those of its object makes the last drop destroy a different, still referenced object",
+    })
